@@ -40,7 +40,7 @@ fn disj_product(items: &[BodyItem]) -> Vec<Vec<BodyItem>> {
 }
 
 /// core form of one conjunctive body
-fn desugar_body(body: Vec<BodyItem>) -> Vec<BodyItem> {
+fn desugar_body(body: Vec<BodyItem>, eq_bound: bool) -> Vec<BodyItem> {
     let mut fresh: Var = 0;
     max_var(&body, &mut fresh);
     fresh = fresh.max(99) + 1;
@@ -58,6 +58,11 @@ fn desugar_body(body: Vec<BodyItem>) -> Vec<BodyItem> {
                         Arg::Var(v) => {
                             if here.contains(&v) {
                                 // repeated variable inside one clause: fresh variable + equality test
+                                let g = fresh; fresh += 1;
+                                eq_conds.push(Cond::Eq(Expr::Var(g), Expr::Var(v)));
+                                args.push(Arg::Var(g));
+                            } else if eq_bound && bound.contains(&v) {
+                                // variable bound by an earlier item: fresh variable + equality test against the column
                                 let g = fresh; fresh += 1;
                                 eq_conds.push(Cond::Eq(Expr::Var(g), Expr::Var(v)));
                                 args.push(Arg::Var(g));
@@ -97,12 +102,16 @@ fn desugar_body(body: Vec<BodyItem>) -> Vec<BodyItem> {
 fn fresh_unit(f: &mut Var) -> Var { let g = *f; *f += 1; g }
 
 /// the documented core expansion of a program without macros
-pub fn desugar(p: &Prog) -> Prog {
+pub fn desugar(p: &Prog) -> Prog { desugar_with(p, false) }
+/// as `desugar`, and every clause variable that an earlier body item bound becomes a fresh variable plus
+/// an equality test (no clause is joined through an index any more)
+pub fn desugar_eq(p: &Prog) -> Prog { desugar_with(p, true) }
+fn desugar_with(p: &Prog, eq_bound: bool) -> Prog {
     let mut q = p.clone();
     q.rules = vec![];
     for r in &p.rules {
         for body in disj_product(&r.body) {
-            let core = desugar_body(body);
+            let core = desugar_body(body, eq_bound);
             // a rule with several head clauses is one rule per head clause
             for h in &r.heads { q.rules.push(Rule { heads: vec![h.clone()], body: core.clone() }); }
         }
